@@ -119,9 +119,19 @@ def c08(R):
                     k1 = max(1, k // 3); s2 = make(kind, prob, g, eps, bs, test, P); s2.solve(k1); st2 = s2.solve(k - k1)
                     if int(st2.info.iteration) != it or not close(st2.values, V, 1e-8) or not np.array_equal(np.asarray(st2.policy), np.asarray(st.policy)):
                         R.fail("c08.composable", "solve(k1); solve(k2) differs from solve(k1+k2)", dict(inp, k1=k1), dict(iteration=int(st2.info.iteration)), dict(iteration=it))
-    c08_shuffle(R)
+    c08_shuffle(R); c08_thresholds(R)
     return R
 
+def c08_thresholds(R):
+    """the documented threshold for every gamma in (0, 1], in particular discount factors very close to one (a tolerance test for `gamma == 1` would be wrong there)"""
+    ns = np.array([[[0]], [[0]]]); r = np.array([[[1.0]], [[0.5]]]); p = np.ones((2, 1, 1)); eps = 0.01
+    for g in (0.5, 0.999, 0.99999, 0.999999, 1 - 1e-9, 1.0):
+        for kind, mk in (("vi", lambda t: VI(Tab(ns, r, p), gamma=g, epsilon=eps, verbose=0, convergence_test=t)), ("pi", lambda t: PI(Tab(ns, r, p), gamma=g, epsilon=eps, verbose=0, convergence_test=t)),
+                         ("sa", lambda t: SA(Tab(ns, r, p), gamma=g, epsilon=eps, verbose=0, convergence_test=t))):
+            for test in ("span", "max_diff"):
+                thr = float(mk(test).conv_threshold); want = eps if g == 1.0 else eps * (1 - g) / g
+                inp = dict(solver=kind, gamma=g, epsilon=eps, test=test); R.case(("threshold", kind, g, test), inp)
+                if not (abs(thr - want) <= 1e-6 * want): R.fail("c08.threshold", "convergence threshold differs from the documented epsilon*(1-gamma)/gamma (epsilon when gamma is exactly 1)", inp, thr, want)
 def c08_shuffle(R):
     """composability with the shuffled update order: the PRNG key is carried state (no reference iteration needed: solve(k1); solve(k2) vs solve(k1+k2))"""
     for t, N, A, E, ns, r, p in mdps(2, lo=6, hi=12):
@@ -177,6 +187,17 @@ def c01(R):
             if int(st.info.iteration) >= 5000: continue
             pol = np.asarray(st.policy)[:, 0]; gap = float((vstar - policy_value(ns, r, p, g, pol)).max())
             if not (gap <= bound * (1 + 1e-6) + 1e-6 * max(1.0, offset) * 1e-3): R.fail("c01.policy_near_optimal", f"converged policy misses the a-priori bound {bound:.3g} (value magnitude far above the action gaps)", inp, gap, bound)
+    # a discount factor very close to (but below) one: whenever convergence is REPORTED the bound must hold.  Start from estimates whose one-step residual is
+    # below epsilon but far above the documented threshold epsilon*(1-gamma)/gamma, and for which the greedy choice at state 0 is the wrong one
+    g, eps = 0.99999, 0.01; ns = np.array([[[1], [2]], [[1], [1]], [[2], [2]]]); r = np.array([[[0.0], [0.0]], [[1.0], [1.0]], [[0.999], [0.999]]]); p = np.ones((3, 2, 1))
+    vstar = np.array([g * 1.0 / (1 - g), 1.0 / (1 - g), 0.999 / (1 - g)]); v0 = np.array([g * 0.999 / (1 - g), 99100.0, 0.999 / (1 - g)])
+    for kind, test in [("vi", "span"), ("vi", "max_diff"), ("sa", "max_diff")]:
+        if kind == "vi": s = VI(Tab(ns, r, p, v0), gamma=g, epsilon=eps, verbose=0, convergence_test=test); bound = eps if test == "span" else 2 * eps
+        else: s = SA(Tab(ns, r, p, v0), gamma=g, epsilon=eps, verbose=0, convergence_test=test); bound = 2 * g * eps / (1 - g)
+        st = s.solve(200); inp = desc(3, 2, 1, solver=kind, test=test, gamma=g, epsilon=eps, v0=v0, note="state 0 chooses between two absorbing states paying 1 and 0.999; the better one is underestimated by 900", **tables(ns, r, p)); R.case((kind, test, "gamma_near_one"), {x: inp[x] for x in ("solver", "test", "gamma")})
+        if int(st.info.iteration) >= 200: continue          # no convergence claim within the budget: nothing to check
+        pol = np.asarray(st.policy)[:, 0]; gap = float((vstar - policy_value(ns, r, p, g, pol)).max())
+        if not (gap <= bound * (1 + 1e-6) + 1e-6): R.fail("c01.policy_near_optimal", f"convergence reported at iteration {int(st.info.iteration)} but the policy misses the a-priori bound {bound:.3g} (discount factor close to one)", inp, gap, bound)
     # "on convergence" includes runs that were restored from a checkpoint and continued (the bound is about the state the solver stops in)
     import tempfile, shutil, os
     from mdpax.problems import Forest
